@@ -10,11 +10,17 @@ exit 2: could not build the tree / harness self-check failed (never a verdict)
 """
 import sys, os, json, time, importlib, argparse, shutil, traceback
 sys.path.insert(0, os.path.dirname(os.path.abspath(__file__)))
-from vlib import core
+from vlib import core, regress
 
 
 def load_check(pid):
     return importlib.import_module('checks.%s' % pid.lower()).CHECK
+
+
+def do_replay(check, tree, rep, wd):
+    if rep.get('generic'):
+        return regress.dispatch(tree, rep, wd)
+    return check.replay(tree, rep, wd)
 
 
 def confirm(check, tree, rep, wd, times=3):
@@ -24,7 +30,7 @@ def confirm(check, tree, rep, wd, times=3):
     for i in range(times):
         d = os.path.join(wd, 'confirm%d_%d' % (id(rep) & 0xffff, i)); os.makedirs(d, exist_ok=True)
         try:
-            bad, det = check.replay(tree, rep, d)
+            bad, det = do_replay(check, tree, rep, d)
         except Exception:
             bad, det = False, 'replay raised: ' + traceback.format_exc()
         if bad:
@@ -62,7 +68,7 @@ def main():
             check.prepare(tree, tier)
         if a.replay:
             d = os.path.join(top, 'replay'); os.makedirs(d)
-            bad, det = check.replay(tree, rep, d)
+            bad, det = do_replay(check, tree, rep, d)
             print(det)
             if bad:
                 print('VIOLATION property=%s replay=%s' % (pid, os.path.abspath(a.replay)))
@@ -85,7 +91,7 @@ def main():
                 if bad:
                     viol_lines.append((rp, 'regression of fixed defect %s: %s' % (f['id'], det)))
             else:
-                bad, det = check.replay(tree, rep, d)
+                bad, det = do_replay(check, tree, rep, d)
                 if bad:
                     known_seen.append(f['id'])
                     print('KNOWN-FINDING: property=%s %s' % (pid, f['line'].split(' ', 2)[2] if f['line'].count(' ') >= 2 else f['line']))
